@@ -83,12 +83,12 @@ func main() {
 	}
 	dir, _ := os.MkdirTemp("", "govc")
 	defer os.RemoveAll(dir)
-	cfg := SolverCfg{Workers: 16, FirstSecs: 3, RaceSecs: 20, Dir: dir, KeepFiles: *keep}
+	cfg := SolverCfg{Workers: 16, FirstSecs: 3, RaceSecs: 45, Dir: dir, KeepFiles: *keep}
 	if v := os.Getenv("GOVC_RACE_SECS"); v != "" {
 		fmt.Sscanf(v, "%d", &cfg.RaceSecs)
 	}
 	if *tier == "thorough" {
-		cfg.FirstSecs, cfg.RaceSecs = 5, 60
+		cfg.FirstSecs, cfg.RaceSecs = 5, 90
 	}
 	if *keep {
 		cfg.Dir = "/tmp/govc-keep"
